@@ -274,6 +274,13 @@ impl<'tcx> Cx<'tcx> {
                 named = format!("{}::promoted[{:?}]", named, u.promoted.unwrap());
             }
         }
+        // references to statics: report the static's path
+        if let Const::Val(mir::ConstValue::Scalar(rustc_middle::mir::interpret::Scalar::Ptr(ptr, _)), _) = c.const_ {
+            let aid = ptr.provenance.alloc_id();
+            if let Some(rustc_middle::mir::interpret::GlobalAlloc::Static(sdid)) = tcx.try_get_global_alloc(aid) {
+                named = format!("static:{}", self.path(sdid));
+            }
+        }
         let mut val = String::from("null");
         let is_scalar = ty.is_integral() || ty.is_bool() || ty.is_char();
         if is_scalar {
@@ -636,6 +643,32 @@ impl<'tcx> Cx<'tcx> {
         )
     }
 
+    fn promoted_json(&mut self, ldid: LocalDefId) -> Vec<String> {
+        let tcx = self.tcx;
+        let did = ldid.to_def_id();
+        let mut out = Vec::new();
+        let proms = tcx.promoted_mir(did);
+        for (pi, body) in proms.iter_enumerated() {
+            let mut locals = Vec::new();
+            for (_l, d) in body.local_decls.iter_enumerated() {
+                locals.push(format!("[{},\"\",\"\"]", jstr(&self.ty_str(d.ty))));
+            }
+            let mut blocks = Vec::new();
+            for (_, bb) in body.basic_blocks.iter_enumerated() {
+                blocks.push(self.block_json(did, body, bb));
+            }
+            out.push(format!(
+                "{{\"path\":{},\"kind\":\"promoted\",\"parent\":{},\"vis\":\"\",\"impl_self\":\"\",\"trait_impl\":\"\",\"argc\":0,\"sp\":{},\"locals\":[{}],\"upvars\":[],\"blocks\":[{}]}}",
+                jstr(&format!("{}::promoted[{:?}]", self.path(did), pi)),
+                jstr(&self.path(did)),
+                self.span_json(body.span),
+                locals.join(","),
+                blocks.join(",")
+            ));
+        }
+        out
+    }
+
     fn body_json(&mut self, ldid: LocalDefId, kind: &str) -> Option<String> {
         let tcx = self.tcx;
         let did = ldid.to_def_id();
@@ -753,6 +786,11 @@ impl rustc_driver::Callbacks for Cb {
             };
             if let Some(j) = cx.body_json(ldid, kind) {
                 fns.push(j);
+            }
+            if kind == "static" || kind == "const" {
+                for j in cx.promoted_json(ldid) {
+                    fns.push(j);
+                }
             }
         }
         // dump all local ADTs even when unused in bodies
